@@ -392,13 +392,28 @@ class Interp:
         self.assumed_asserts = []
 
     # ------------------------------------------------------------ calls
-    def call_def(self, def_path, args, e=None):
+    def call_def(self, def_path, args, e=None, gargs=None):
         """Evaluate the body of a crate-local fn (by exact def path) on abstract arguments."""
         body = self.lib.bodies.get(def_path)
         if body is None or body.get('stolen'):
             raise Unsupported("no body for %s" % def_path, e)
         fr = Frame()
-        return self._run_body(body, args, fr, e)
+        # type arguments of this call, by the callee's parameter names (resolved through the caller's own environment)
+        env = {}
+        names = body.get('generics') or []
+        if gargs and len(gargs) == len(names):
+            outer = getattr(self, 'tyenv', [])
+            for n_, g_ in zip(names, gargs):
+                for o in reversed(outer):
+                    if g_ in o:
+                        g_ = o[g_]
+                        break
+                env[n_] = g_
+        self.tyenv = getattr(self, 'tyenv', []) + [env]
+        try:
+            return self._run_body(body, args, fr, e)
+        finally:
+            self.tyenv.pop()
 
     def call_norm(self, norm, args, e=None):
         b = self.lib.body(norm)
@@ -461,14 +476,28 @@ class Interp:
             r = self.model.call(tname, cal, args, e, frame)
         if r is not NotImplemented:
             return r
+        # 2b. a trait method called on a type parameter (`D::method(..)` inside `fn f<D: Trait>`): static dispatch through the type
+        #     arguments the enclosing generic function was called with
+        if cal.get('trait') and not res and cal.get('gargs'):
+            selfty = cal['gargs'][0]
+            conc = None
+            for env in reversed(getattr(self, 'tyenv', [])):
+                if selfty in env:
+                    conc = env[selfty]
+                    break
+            if conc is not None:
+                want = '<%s as %s>::%s' % (strip_generics(conc), strip_generics(cal['trait']), strip_generics(path).split('::')[-1])
+                cands = [d for d, b in self.lib.bodies.items() if strip_generics(d) == want]
+                if len(cands) == 1 and self.model.inline_ok(want):
+                    return self.call_def(cands[0], args, e, gargs=None)
         # 3. crate-local function with a body: inline
         for cand in (res, path):
             if cand and cand in self.lib.bodies and self.model.inline_ok(strip_generics(cand)):
-                return self.call_def(cand, args, e)
+                return self.call_def(cand, args, e, gargs=cal.get('gargs'))
         if cal.get('crate') == self.crate:
             nb = self.lib.body(strip_generics(path))
             if nb is not None and self.model.inline_ok(strip_generics(path)):
-                return self.call_def(nb['def'], args, e)
+                return self.call_def(nb['def'], args, e, gargs=cal.get('gargs'))
         if getattr(self.model, 'allow_opaque', True) and all(harmless(a) for a in args):
             self.opaque_calls.append((name, line_of(e) if e is not None else ''))
             return Opaque("result of `%s`" % name)
